@@ -302,6 +302,11 @@ class Blob:
         return "Blob<%s>" % self.name
 
 
+class UnknownStr(Blob):
+    """A string about which nothing is known (e.g. a slice whose start is unrelated to the pieces of the string):
+    comparisons with it are undetermined and split the path."""
+
+
 class Sel:
     """table[index] with a symbolic index (the table is a concrete list)."""
 
